@@ -108,7 +108,7 @@ def rows_of(c):
         # one resource per backend (several kinds may share one Service): one row per backend
         return ["dyn_case %d fx %s false cl_%d %s %s %s" % (
             c["id"] * 100 + i, C.cq_bool(c["plus"]), c["id"], C.cq_str(NS), cq_backend(b),
-            C.cq_list([C.cq_str(x) for x in per.get("after") or []]))
+            C.cq_list([C.cq_str(x) for x in per.get("running") or []]))      # what NGINX balances over (last reload + API calls)
             for i, (b, per) in enumerate(zip(c["backends"], c["obs"]["per"]))]
     for i, (b, o) in enumerate(zip(c["backends"], c["obs"])):
         out.append("backend_case %d fx %s %s cl_%d %s %s %s %s %s %s %s %s" % (
@@ -235,15 +235,20 @@ def judge_dyn(run, c, i, agree, spec, nontrivial, tag, kind):
     kinds = "+".join(x["kind"] for x in c["backends"])
     shared = len(c["backends"]) > 1
     run.count_case({"fam": "dyn", "plus": c["plus"], "svcs": c["svcs"], "slices": c["slices"], "pods": c["pods"], "backends": c["backends"],
-                    "i": i, "dyn": c["dyn"]}, bool(nontrivial) or per["before"] != per["after"])
+                    "i": i, "dyn": c["dyn"], "api_fail": c.get("api_fail")}, bool(nontrivial) or per["before"] != per["running"])
     run.cov["traces_validated_against_impl"] += 1
     bt = run.cov.setdefault("by_branch", {})
     bt[str(tag)] = bt.get(str(tag), 0) + 1
     dy = run.cov.setdefault("dyn_by_op", {})
-    key = "%s:%s:%s" % (op, "shared" if shared else "single", "changed" if per["before"] != per["after"] else "unchanged")
+    key = "%s:%s:%s%s:%s" % (op, "plus" if c["plus"] else "oss", "shared" if shared else "single", ":api-failure" if c.get("api_fail") else "",
+                             "changed" if per["before"] != per["running"] else "unchanged")
+    if o["queued"] >= 3:
+        run.cov["dyn_batches_of_3_or_more_tasks"] = run.cov.get("dyn_batches_of_3_or_more_tasks", 0) + 1
     dy[key] = dy.get(key, 0) + 1
-    where = "dyn case %d backend %d of [%s] (%s -> %s:%s, change `%s`, events %s, %d task(s) queued, %d synced)" % (
-        c["id"], i, kinds, b["kind"], b["svc"], b["port_name"] or b["port_num"], op, o["events"], o["queued"], o["synced"])
+    where = "dyn case %d backend %d of [%s] %s (%s -> %s:%s, change `%s`, events %s, %d task(s) queued, %d synced, %d reload(s), %d API call(s) of which %d failed%s)" % (
+        c["id"], i, kinds, "NGINX Plus" if c["plus"] else "NGINX OSS", b["kind"], b["svc"], b["port_name"] or b["port_num"], op,
+        o["events"] if len(o["events"]) < 5 else o["events"][:4] + ["..."], o["queued"], o["synced"], o.get("reloads", 0), o.get("api_calls", 0),
+        o.get("api_fails", 0), (", API failure injected for backend(s) %s" % c["api_fail"]) if c.get("api_fail") else "")
     if not per.get("has_file"):
         run.failing({"kind": "backend-disappeared", "backend": b["kind"], "fam": "dyn"}, [c],
                     "%s: the upstream block of the %s is gone after the events" % (where, b["kind"]), theorem="C14_empty_is_error_backend")
@@ -251,18 +256,20 @@ def judge_dyn(run, c, i, agree, spec, nontrivial, tag, kind):
         if kind in (1, 2, 4):          # a known defect of the resolution itself, on the new cluster
             sig = {"kind": FAILKIND[kind]}
         else:
-            stale = per["before"] == per["after"]
+            stale = per["before"] == per["running"]
             sig = {"kind": "stale-after-event" if stale else "wrong-after-event", "op": op, "enqueued": o["queued"] > 0}
+            if per["running"] != per["after"]:
+                sig["file_not_loaded"] = True      # the file on disk differs from what NGINX uses
             if shared:
                 # other resources of the case (other kinds, same Service) did follow the change?
                 sig["shared_service"] = True
-        run.failing(sig, [c], "%s: NGINX is left with %s (before the events: %s), which is not the resolution on the cluster after the events (%s)"
-                    % (where, json.dumps(per["after"])[:200], json.dumps(per["before"])[:200], FAILKIND.get(kind, "other")),
+        run.failing(sig, [c], "%s: NGINX balances over %s (before the events: %s; the file on disk says %s), which is not the resolution on the cluster after the events (%s)"
+                    % (where, json.dumps(per["running"])[:200], json.dumps(per["before"])[:200], json.dumps(per["after"])[:200], FAILKIND.get(kind, "other")),
                     theorem="Endpoints.Cases.dyn_case / C14_exact on the cluster after the events")
     elif not agree:
         run.failing({"kind": "correspondence", "backend": b["kind"], "fam": "dyn"}, [c],
                     "%s: the configured servers %s differ from the model's rendering on the new cluster although the specification holds"
-                    % (where, json.dumps(per["after"])[:300]),
+                    % (where, json.dumps(per["running"])[:300]),
                     theorem="correspondence Endpoints.Model ~ event handlers + sync", found_input=False)
 
 
@@ -276,7 +283,8 @@ TRUSTED = [
     "static family: the nginx templates are not executed, the observable is the list of server entries of the generated upstream structure; dynamic "
     "family: the production templates are executed by the real Configurator and the `server` lines inside `upstream` blocks are parsed from the file",
     "dynamic family: the harness plays the shared informer (store update, then the real handler) and the queue worker (Get, real lbc.sync, Done); "
-    "fake clientsets, informers never started",
+    "fake clientsets, informers never started; NGINX itself is a stand-in behind the Manager interface: it balances over what the files said at "
+    "the last Reload, overwritten per upstream by every successful NGINX Plus API call since (API failures are injected per upstream)",
 ]
 
 
@@ -320,7 +328,7 @@ def check(run):
                        "of the Service + slice ports rewritten in place; one slice port number; readiness; addresses; the service-name label; slice "
                        "deleted / added; service port number) and the change is delivered as watch events to the REAL createServiceHandlers / "
                        "createEndpointSliceHandlers, the REAL work queue is drained with the REAL lbc.sync, and the `server` lines of the file written last "
-                       "of EVERY resource's upstream must be the resolution on the cluster AFTER the events (dyn_by_op counts, per change and shared/single, how many altered the servers).")
+                       "that NGINX actually uses (stand-in: files as of the last reload + successful API calls) for EVERY resource's upstream must be the resolution on the cluster AFTER the events (dyn_by_op counts, per change and shared/single, how many altered the servers).")
     run.cov["trusted_base"] = TRUSTED
     run.assumptions += ["the correspondence follows the code variant of the tree under test (repairs F40 / F41 / F42 present or not, read off the corpus "
                         "witnesses: model_variant); the specification S does not depend on the variant",
